@@ -56,6 +56,7 @@ def run(ctx):
     ctx.trusted += ["hand-written model Obs/Pairing.v tied to obs.py by correspondence"]
     ctx.assumptions += ["tolerance 2^-30"]
     ctx.copy_props()
+    common.tie_pycore(ctx, ["Tie_reduce.v"])
     cases = []
 
     def add(opterm, impl, descr, key, what, replay):
@@ -87,9 +88,28 @@ def run(ctx):
                 o = obsutil.make_obs(pe, rng, sub, "int")
                 if mode == "covobs":
                     o = o * pe.cov_Obs(1.5, 0.04, "cvR")
-                via = rng.choice(["function", "method", "corr"])
+                via = rng.choice(["function", "function-list", "method", "corr"])
                 try:
-                    if via == "function":
+                    if via == "function-list":
+                        # several observables in one call: an earlier entry lives on a twin layout (same first / last configuration and
+                        # count on every replica, another interior) -- each entry must still be paired with its own configurations
+                        twin = {}
+                        for nm, cf in sub.items():
+                            cf = list(cf)
+                            spare = [c for c in lay.get(nm, []) if cf and cf[0] < c < cf[-1] and c not in cf]
+                            if len(cf) >= 3 and spare:
+                                cf[rng.randrange(1, len(cf) - 1)] = rng.choice(spare)
+                                cf = sorted(set(cf))
+                            twin[nm] = cf
+                        try:
+                            o_twin = obsutil.make_obs(pe, rng, twin, "int")
+                            lst = [o_twin, o] if all(len(twin[k]) == len(list(sub[k])) for k in sub) else [o]
+                        except Exception:
+                            lst = [o]
+                        if mode == "covobs":
+                            lst = [o]
+                        r = pe.reweight(w, lst, all_configs=allc)[-1]
+                    elif via == "function":
                         r = pe.reweight(w, [o], all_configs=allc)[0]
                     elif via == "method":
                         r = o.reweight(w, all_configs=allc)
